@@ -15,10 +15,11 @@ import (
 func flagApp(flagCount uint32, f uint32, croak bool, mode bool, startSet bool) *app.App {
 	a := app.NewApp()
 	a.FlagCount = flagCount
-	set := [][]uint32{{f}, {}}
-	reset := [][]uint32{{}, {f}}
+	// a reserved index in front of the flag under test: it must be ignored, the flag must still be written
+	set := [][]uint32{{3, f, 0}, {1}}
+	reset := [][]uint32{{5}, {2, f}}
 	if !startSet {
-		set, reset = [][]uint32{{}, {f}}, [][]uint32{{f}, {}}
+		set, reset = [][]uint32{{4}, {0, f}}, [][]uint32{{1, f, 2}, {}}
 	}
 	a.Funcs["tog"] = &app.FuncSpec{Sym: "tog", Kind: "id", FlagSet: set, FlagReset: reset}
 	code := []codec.Ins{{Op: codec.LOAD, S1: "tog", N: 20}, {Op: codec.RELOAD, S1: "tog"}}
